@@ -56,7 +56,9 @@ pub fn tier_name(t: u8) -> &'static str {
 }
 
 /// Run `total` jobs of `family` (for property `prop`) on worker processes. Records come back in index order.
-pub fn run_family(family: &str, prop: &str, tier: u8, seed: u64, total: usize, watchdog: Duration) -> Vec<Rec> {
+pub type DiedFn = fn(&str, &str, u8, u64, usize, &str) -> Option<Rec>;
+
+pub fn run_family(family: &str, prop: &str, tier: u8, seed: u64, total: usize, watchdog: Duration, died: DiedFn) -> Vec<Rec> {
     let nworkers = jobs().min(total.max(1));
     let exe = std::env::current_exe().expect("current_exe");
     let results: Arc<Mutex<Vec<Option<Rec>>>> = Arc::new(Mutex::new(vec![None; total]));
@@ -123,8 +125,12 @@ pub fn run_family(family: &str, prop: &str, tier: u8, seed: u64, total: usize, w
                 match cur {
                     Some(i) => {
                         // the worker died (or was killed) while working on i
-                        let mut rec = Rec::new(i);
-                        rec.status = if timed_out { "timeout".into() } else { format!("died:{}", status.map(|s| s.to_string()).unwrap_or_default()) };
+                        let st = if timed_out { "timeout".to_string() } else { format!("died:{}", status.map(|s| s.to_string()).unwrap_or_default()) };
+                        let rec = died(&family, &prop, tier, seed, i, &st).unwrap_or_else(|| {
+                            let mut rec = Rec::new(i);
+                            rec.status = st.clone();
+                            rec
+                        });
                         results.lock().unwrap()[i] = Some(rec);
                         start = i + nworkers;
                     }
@@ -255,7 +261,9 @@ fn matches_finding(f: &Finding, prop: &str, rec: &Rec, v: &Viol) -> bool {
     }
     match f.id_by.as_str() {
         "input" => f.atlas.iter().any(|h| *h == format!("{:016x}", rec.hash)),
-        "history" | "call_site" => !f.signature.is_empty() && f.signature == v.sig,
+        // a history signature is the '+'-joined list of features shared by every reference witness
+        "history" => !f.signature.is_empty() && v.sig.split('+').any(|x| x == f.signature),
+        "call_site" => !f.signature.is_empty() && f.signature == v.sig,
         _ => false,
     }
 }
